@@ -11,7 +11,7 @@ if not os.path.isdir(WT):
 head = subprocess.run(['git', '-C', '/repo', 'rev-parse', 'HEAD'], capture_output=True, text=True).stdout.strip()
 subprocess.run(['git', '-C', WT, 'checkout', '-q', '--', '.'], check=True)
 subprocess.run(['git', '-C', WT, 'checkout', '-q', '--detach', head], check=True)
-diffs = sorted(glob.glob('/verif/seeded/*/patch.diff') + glob.glob('/tmp/wt/*.diff'))
+diffs = sorted(glob.glob('/verif/seeded/*/patch.diff') + glob.glob('/tmp/wt/*.mut?.diff'))
 man = json.load(open('/verif/MANIFEST.json'))
 claimed = [c['property_id'] for c in man['checks']]
 seen = set()
